@@ -365,8 +365,66 @@ def ground_tables_all_versions(tier, seed):
             'failures': fails[:20]}
 
 
+def ground_installed_data_history(tier, seed):
+    """every history  use \\d,\\w  ->  install_unicode_data(v)  ->  use \\d,\\w  over the installable versions (explicit version strings and the
+    argument-less default): the multi-character escapes, \\p{Nd} and unicode_category('Nd') all denote the data of the installed version."""
+    import warnings
+    from elementpath.regex import unicode_subsets as U, character_classes as CC
+    from elementpath.regex import install_unicode_data, unicode_version, unicode_category, CharacterClass
+    fails, n = [], 0
+    default = unicode_version()
+    versions = list(U.UNICODE_VERSIONS)
+    try:
+        with warnings.catch_warnings():
+            warnings.simplefilter('ignore')
+            order = [None] + versions + [None] + versions[::-1] + [None]
+            for v in order:
+                # prime the lazy subsets with the data installed before the switch
+                _ = (_items(CC.d_shortcut()), _items(CC.w_shortcut()))
+                if v is None:
+                    install_unicode_data()
+                else:
+                    install_unicode_data(v)
+                n += 1
+                want_v = default if v is None else v
+                ref = U.UnicodeData(want_v)
+                nd = [(lo(it), hi(it)) for it in _items(ref.category('Nd'))]
+                word = sorted((lo(it), hi(it)) for k in 'LMNS' for it in _items(ref.category(k)))
+                merged = []
+                for a, b in word:
+                    if merged and merged[-1][1] == a:
+                        merged[-1] = (merged[-1][0], b)
+                    else:
+                        merged.append((a, b))
+                got_d = [(lo(it), hi(it)) for it in _items(CC.d_shortcut())]
+                got_w = [(lo(it), hi(it)) for it in _items(CC.w_shortcut())]
+                got_p = [(lo(it), hi(it)) for it in _items(unicode_category('Nd'))]
+                cc = CharacterClass('\\d')
+                got_cc = [(lo(it), hi(it)) for it in _items(cc.positive)] if hasattr(cc, 'positive') else got_d
+                if unicode_version() != want_v:
+                    fails.append({'key': f'installed version after install_unicode_data({v!r})', 'what': f'unicode_version() = {unicode_version()} after install_unicode_data({v!r})'})
+                if got_p != nd:
+                    fails.append({'key': f"unicode_category('Nd') after install_unicode_data({v!r})", 'what': f"unicode_category('Nd') is not the Nd table of Unicode {want_v}"})
+                if got_d != nd or got_cc != nd:
+                    fails.append({'key': 'the \\d escape denotes the data of a previously installed version', 'what': f'after install_unicode_data({v!r}) the \\d escape has '
+                                  f'{sum(b - a for a, b in got_d)} code points, \\p{{Nd}} of Unicode {want_v} has {sum(b - a for a, b in nd)}'})
+                if got_w != merged:
+                    fails.append({'key': 'the \\w escape denotes the data of a previously installed version', 'what': f'after install_unicode_data({v!r}) the \\w escape differs '
+                                  f'from the union of L, M, N, S of Unicode {want_v}'})
+    finally:
+        with warnings.catch_warnings():
+            warnings.simplefilter('ignore')
+            install_unicode_data()
+    uniq = {f['key']: f for f in fails}
+    return {'obligations': n, 'discharged': max(0, n - len(uniq)), 'evaluations': n, 'distinct': n, 'exhaustive': True,
+            'scope': f'{len(versions)} installable Unicode versions installed in ascending and descending order, interleaved with the argument-less default, with the lazy '
+                     'escape subsets used before every switch: \\d, \\w, CharacterClass(\\d), unicode_category and unicode_version agree with the tables of the installed version',
+            'failures': list(uniq.values())[:20]}
+
+
 GROUND = [Bounded('categories_equal_unicodedata', ground_categories_vs_unicodedata),
-          Bounded('tables_all_versions', ground_tables_all_versions)]
+          Bounded('tables_all_versions', ground_tables_all_versions),
+          Bounded('installed_data_history', ground_installed_data_history)]
 
 
 # ---- bounded stand-in: CharacterClass / UnicodeSubset set algebra against Python sets -------------
@@ -496,7 +554,93 @@ def _replay_set_algebra(f):
     return _native_wf_canon(r._codepoints)
 
 
-BOUNDED = [Bounded('set_algebra_small_universe', bounded_set_algebra, _replay_set_algebra)]
+def _spec_char_group(tokens):
+    """Independent reading of an XSD positive character group made of single characters and ranges (XSD 1.1 appendix G: charRange ::= singleChar '-' singleChar;
+    an unescaped '-' is a literal only as the first or the last character).  Returns a set of code points, 'error' for a reversed range, or None when the
+    grammar does not settle the meaning (an unescaped '-' elsewhere, adjacent unescaped hyphens)."""
+    lit = [(t[-1], len(t) == 2) for t in tokens]          # (character, escaped?)
+    n = len(lit)
+    hy = [i for i, (c, esc) in enumerate(lit) if c == '-' and not esc]
+    if any(b - a == 1 for a, b in zip(hy, hy[1:])):
+        return None
+    out, i = set(), 0
+    while i < n:
+        c, esc = lit[i]
+        if c == '-' and not esc:
+            if i in (0, n - 1):
+                out.add(ord('-'))
+                i += 1
+                continue
+            return None
+        if i + 2 < n and lit[i + 1] == ('-', False):
+            c2 = lit[i + 2][0]
+            if ord(c) > ord(c2):
+                return 'error'
+            out.update(range(ord(c), ord(c2) + 1))
+            i += 3
+            if i < n and lit[i] == ('-', False) and i != n - 1:
+                return None
+            continue
+        if i + 2 == n and lit[i + 1] == ('-', False):
+            out.add(ord(c))
+            out.add(ord('-'))
+            i += 2
+            continue
+        out.add(ord(c))
+        i += 1
+    return out
+
+
+def bounded_subset_strings(tier, seed):
+    """UnicodeSubset / iterparse_character_subset on the string form of a character group: all token strings up to a length over an alphabet of plain
+    characters, the hyphen and single-character escapes, against an independent reading of the XSD grammar (only strings whose meaning the grammar settles)."""
+    import itertools
+    from elementpath.regex.codepoints import iterparse_character_subset
+    from elementpath.regex import RegexError
+    alphabet = ['a', 'c', 'z', '-', '.', '\\-', '\\[', '\\]', '\\\\', '\\^']
+    maxlen = 4 if tier == 'quick' else 5
+    fams, n, judged, seen = {}, 0, 0, set()
+    for k in range(1, maxlen + 1):
+        for toks in itertools.product(alphabet, repeat=k):
+            want = _spec_char_group(toks)
+            n += 1
+            if want is None:
+                continue
+            judged += 1
+            text = ''.join(toks)
+            seen.add((k, sum(1 for t in toks if t == '-'), sum(1 for t in toks if len(t) == 2)))
+            outs = {}
+            for name, fn_ in (('iterparse_character_subset(expand_ranges=True)', lambda: set(iterparse_character_subset(text, expand_ranges=True))),
+                              ('iterparse_character_subset', lambda: {cp for it in iterparse_character_subset(text) for cp in ([it] if isinstance(it, int) else range(*it))}),
+                              ('UnicodeSubset(str)', lambda: set(UnicodeSubset(text))),
+                              ('UnicodeSubset.update(str)', lambda: (lambda u: (u.update(text), set(u))[1])(UnicodeSubset()))):
+                try:
+                    outs[name] = fn_()
+                except RegexError:
+                    outs[name] = 'error'
+                except Exception as e:      # noqa
+                    outs[name] = f'crash {type(e).__name__}'
+                if outs[name] != want:
+                    kind = ('a reversed range is accepted' if want == 'error' else
+                            'a valid group is rejected (a range ending in an escaped backslash, followed by another escape)'
+                            if outs[name] == 'error' and '-' + chr(92) * 3 in text else 'a valid group is rejected' if outs[name] == 'error' else
+                            'a code point is dropped' if isinstance(outs[name], set) and outs[name] < want else 'wrong code points')
+                    fams.setdefault(f'{name}: {kind}', []).append({'text': text, 'got': repr(sorted(map(chr, outs[name])) if isinstance(outs[name], set) else outs[name])[:80],
+                                                                  'expected': repr(sorted(map(chr, want)) if isinstance(want, set) else want)[:80]})
+    fails = [{'key': k_, 'items': it[:4], 'count': len(it), 'what': f'{k_}: e.g. {it[0]}', 'text': it[0]['text']} for k_, it in fams.items()]
+    return {'evaluations': n, 'distinct': len(seen), 'judged': judged, 'failures': fails, 'n_failures': len(fails),
+            'scope': f'all {n} token strings of length <= {maxlen} over {len(alphabet)} tokens (a, c, z, ., the hyphen, and the escapes \\- \\[ \\] \\\\ \\^); {judged} of them '
+                     'have a meaning settled by the XSD grammar and are compared (set of code points, or a reversed-range error) through 4 entry points',
+            'rule': 'distinct = (length, number of hyphens, number of escapes)'}
+
+
+def _replay_subset_strings(f):
+    r = bounded_subset_strings('quick', 0)
+    return all(x['key'] != f.get('key') for x in r['failures'])
+
+
+BOUNDED = [Bounded('set_algebra_small_universe', bounded_set_algebra, _replay_set_algebra),
+           Bounded('character_group_strings', bounded_subset_strings, _replay_subset_strings)]
 NOT_DECIDED = [
     'ground truth of other Unicode versions (UCD files are fetched from the network by install_unicode_data): only '
     'self-consistency of the bundled tables is checked for versions other than the running one',
